@@ -52,6 +52,9 @@ def check(repo, col, tier):
     col.rule("R-C03-scheme", "gate solvers return x*E + x_inf*(1-E) with the exact x_inf and time constant of their arguments", 3)
     if not _schemes(repo, col):
         return  # the shared solver is wrong: the per-mechanism analysis below would only repeat it (and can blow up)
+    from . import c04
+    col.rule("R-C03-saturation", "save_exp is exp with an upper clip of the exponent at 20 (finite rates)", 1)
+    c04.save_exp_form(repo, col, "R-C03-saturation")
     col.rule("R-C03-convex", "update == x*E + x_inf*(1-E), E = exp(-dt*k)", 10)
     col.rule("R-C03-sign", "k > 0, 0 < x_inf < 1 over positive atoms", 20)
     col.rule("R-C03-helper", "rate helper == c*exprel(u) on its main region", 2)
